@@ -205,6 +205,74 @@ fn k12_hist_slice_4() {
     kani::cover!(mpos == 4 && cap == 4, "target filled exactly reachable");
 }
 
+//@ prop: C12
+//@ family: K12-hist-slice
+//@ tier: thorough
+//@ functions: as k12_hist_slice_3
+//@ inst: SliceOutputTarget, fresh target of capacity 0..=4
+//@ inputs: every history of 5 operations (the length the property's quantifier names)
+//@ oracle: as k12_hist_slice_3
+//@ bound: unwind 8; 5 operations
+//@ timeout: 3000
+#[kani::proof]
+#[kani::unwind(8)]
+fn k12_hist_slice_5() {
+    let mut back: [u8; BACK] = kani::any();
+    let cap: usize = kani::any();
+    kani::assume(cap <= 4);
+    let mut model = back;
+    let mut mpos = 0usize;
+    let a: usize = kani::any();
+    let b: usize = kani::any();
+    kani::assume(a <= 7 && b <= 7);
+    let mut res = Reservation(a..b);
+    {
+        let mut t = SliceOutputTarget::from(&mut back[..cap]);
+        let mut n = 0;
+        while n < 5 {
+            step(&mut t, &mut model, &mut mpos, cap, &mut res);
+            check!(t.pos == mpos && t.pos <= cap, "position equals the model's log length and stays within capacity");
+            n += 1;
+        }
+    }
+    check!(same(&back, &model), "contents equal the append-only log; every other byte untouched");
+    kani::cover!(mpos == 4 && cap == 4, "target filled exactly reachable");
+}
+
+//@ prop: C12
+//@ family: K12-hist-slice
+//@ tier: thorough
+//@ functions: as k12_hist_slice_3
+//@ inst: SliceOutputTarget, fresh target of capacity 0..=4
+//@ inputs: every history of 7 operations
+//@ oracle: as k12_hist_slice_3
+//@ bound: unwind 9; 7 operations
+//@ timeout: 3600
+#[kani::proof]
+#[kani::unwind(9)]
+fn k12_hist_slice_7() {
+    let mut back: [u8; BACK] = kani::any();
+    let cap: usize = kani::any();
+    kani::assume(cap <= 4);
+    let mut model = back;
+    let mut mpos = 0usize;
+    let a: usize = kani::any();
+    let b: usize = kani::any();
+    kani::assume(a <= 7 && b <= 7);
+    let mut res = Reservation(a..b);
+    {
+        let mut t = SliceOutputTarget::from(&mut back[..cap]);
+        let mut n = 0;
+        while n < 7 {
+            step(&mut t, &mut model, &mut mpos, cap, &mut res);
+            check!(t.pos == mpos && t.pos <= cap, "position equals the model's log length and stays within capacity");
+            n += 1;
+        }
+    }
+    check!(same(&back, &model), "contents equal the append-only log; every other byte untouched");
+    kani::cover!(mpos == 4 && cap == 4, "target filled exactly reachable");
+}
+
 // ---- input source -----------------------------------------------------------------------------------------------
 fn eob(e: &crate::Error, requested: usize, remaining: usize) -> bool {
     match e.kind() {
